@@ -5,8 +5,11 @@ import (
 	"fmt"
 	"sort"
 
+	"github.com/ipfs/go-cid"
+	"io"
 	"verif/harness/core"
 	"verif/harness/gen"
+	"verif/harness/model"
 	"verif/harness/store"
 )
 
@@ -49,7 +52,63 @@ func c07Case(c fileCase, viol func(sig, detail string)) (shape string) {
 	return
 }
 
+// zeroStream yields n zero bytes without holding them.
+type zeroStream struct{ left int64 }
+
+func (z *zeroStream) Read(p []byte) (int, error) {
+	if z.left <= 0 {
+		return 0, io.EOF
+	}
+	n := int64(len(p))
+	if n > z.left {
+		n = z.left
+	}
+	for i := int64(0); i < n; i++ {
+		p[i] = 0
+	}
+	z.left -= n
+	return int(n), nil
+}
+
+// c07Huge: a file of 2^32 + 2^20 bytes (4097 one-MiB chunks of zeros, streamed;
+// the stores keep the one distinct leaf once): sizes recorded in interior nodes
+// exceed 32 bits. Both importers run over the same stream.
+func c07Huge(r *core.Run) {
+	total := int64(1)<<32 + int64(1)<<20
+	chunker := "size-1048576"
+	s1, s2 := store.New(), store.New()
+	var ours cid.Cid
+	var oursSz uint64
+	var err error
+	gen.WithWidth(174, func() {
+		ours, oursSz, err = gen.BuildOurs(s1, &zeroStream{left: total}, chunker)
+	})
+	r.Evaluations.Add(1)
+	desc := fmt.Sprintf("w=174 %s, %d zero bytes (2^32 + 2^20)", chunker, total)
+	if err != nil {
+		r.Violate("build-error huge", desc+": "+err.Error(), nil)
+		return
+	}
+	ref, refSz, err := gen.BuildRefReader(s2, &zeroStream{left: total}, chunker, 174, gen.RefMode{Layout: "balanced", RawLeaves: true, CidV1: true})
+	if err != nil {
+		r.InternalError("reference importer on the huge file: " + err.Error())
+		return
+	}
+	r.Transitions.Add(2)
+	if !ours.Equals(ref) || oursSz != refSz {
+		detail := ""
+		if a, err := model.Load(s1, ours); err == nil && a.FS != nil {
+			if b, err := model.Load(s2, ref); err == nil && b.FS != nil {
+				detail = fmt.Sprintf("; root FileSize %d vs reference %d", a.FS.GetFilesize(), b.FS.GetFilesize())
+			}
+		}
+		r.Violate("root-cid-differs huge", fmt.Sprintf("%s: builder %s (size %d), reference %s (size %d)%s", desc, ours, oursSz, ref, refSz, detail), nil)
+	}
+	r.Set("huge_file_bytes", total)
+}
+
 func runC07(r *core.Run) {
+	c07Huge(r)
 	// files built while another build runs through the same LinkSystem come out
 	// as they do alone (alone they equal the reference importer's, below)
 	if overlayActive {
